@@ -68,7 +68,11 @@ def path_signs(root: ast.expr, is_target: Callable[[ast.AST], bool], sign_of: Ca
             if isinstance(e.func, ast.Attribute) and not dotted(e.func).startswith(("np.", "numpy.", "math.", "scipy.")):
                 # method on a value: x.sum() / x.reshape(...)
                 go(e.func.value, s if inc else None, why if inc else f"method .{name}()")
+            both = name in ("maximum", "minimum", "fmax", "fmin")  # non-decreasing in each of the two operands
             for i, a in enumerate(e.args):
+                if both and i < 2:
+                    go(a, s, why)
+                    continue
                 go(a, s if (inc and i == 0) else None, why if (inc and i == 0) else f"argument of {name}()")
             for k in e.keywords:
                 go(k.value, None, f"keyword of {name}()")
